@@ -325,6 +325,10 @@ struct Life {
     _keep: (mpsc::Sender<swimos_api::agent::HttpLaneRequest>, mpsc::Receiver<swimos_runtime::agent::LinkRequest>),
 }
 
+/// When set, the agent is configured with `default_lane_config.transient = true`: every lane is transient, whether
+/// or not it carries the transient flag (the stores are not lanes and stay persistent).
+static LANES_TRANSIENT: std::sync::atomic::AtomicBool = std::sync::atomic::AtomicBool::new(false);
+
 fn start(content: Content, log: Log) -> Life {
     let restored: Arc<Mutex<Option<Restored>>> = Default::default();
     let asked: Arc<Mutex<Vec<String>>> = Default::default();
@@ -336,7 +340,12 @@ fn start(content: Content, log: Log) -> Life {
     let (link_tx, link_rx) = mpsc::channel(16);
     let (stop_tx, stop_rx) = trigger::trigger();
     let store = RecStore { names: Mutex::new(vec![]), content: Mutex::new(content), log, asked: asked.clone() };
-    let fut = AgentRouteTask::new(&agent, identity, AgentRouteChannels::new(attach_rx, http_rx, link_tx), stop_rx, CombinedAgentConfig::default(), None)
+    let mut config = CombinedAgentConfig::default();
+    if LANES_TRANSIENT.load(Ordering::SeqCst) {
+        let lane_config = config.agent_config.default_lane_config.unwrap_or_default();
+        config.agent_config.default_lane_config = Some(swimos_api::agent::LaneConfig { transient: true, ..lane_config });
+    }
+    let fut = AgentRouteTask::new(&agent, identity, AgentRouteChannels::new(attach_rx, http_rx, link_tx), stop_rx, config, None)
         .run_agent_with_store(async move { Ok(store) });
     let task = tokio::spawn(async move { fut.await.map_err(|e| format!("{:?}", e)) });
     Life { task, attach: attach_tx, stop: stop_tx, restored, asked, _keep: (http_tx, link_rx) }
@@ -689,13 +698,80 @@ fn main() {
         }
         w.push(term, human);
     }
+    // ---- every lane transient by configuration (real code only: the model's items have fixed roles) ----
+    // default_lane_config.transient = true makes the lanes v and m transient as well: nothing of a lane may reach
+    // the store, store ids are asked for the two stores only, and after a restart every lane is at its default
+    // while the stores come back as they were handed over
+    LANES_TRANSIENT.store(true, Ordering::SeqCst);
+    for i in 0..(args.cases / 6).max(4) {
+        let n = rng.range(2, 8) as usize;
+        let mut next = 500i64;
+        let cmds: Vec<Cmd> = (0..n)
+            .map(|_| {
+                next += 10;
+                match rng.below(6) {
+                    0 | 1 => Cmd::SetV(next),
+                    2 => Cmd::SetT(next),
+                    3 | 4 => Cmd::Upd(rng.range(0, 3) as i64, next),
+                    _ => Cmd::UpdT(rng.range(0, 3) as i64, next),
+                }
+            })
+            .collect();
+        let clean_stop = rng.below(2) == 0;
+        let out = rt.block_on(first_life(&cmds, false, clean_stop));
+        if let Some(p) = &out.problem {
+            failures.push(format!("transient-by-configuration case {}: {} (commands {:?})", i, p, cmds));
+            continue;
+        }
+        *kinds.entry("lanes_transient_by_configuration".into()).or_default() += 1;
+        let mut asked = out.asked.clone();
+        asked.sort();
+        asked.dedup();
+        if asked != vec!["ms".to_string(), "s".to_string()] {
+            failures.push(format!("transient-by-configuration case {}: store ids were requested for {:?} (only the stores ms, s are persistent)", i, asked));
+        }
+        let mut content = Content::default();
+        for e in &out.log {
+            if let LogEntry::Store(op) = e {
+                let name = match op {
+                    StoreOp::Put(n, _) | StoreOp::Delete(n) | StoreOp::Update(n, _, _) | StoreOp::Remove(n, _) | StoreOp::Clear(n) => n.clone(),
+                };
+                if name != "s" && name != "ms" {
+                    failures.push(format!("transient-by-configuration case {}: the state of the transient lane {} was handed to the store ({:?}; commands {:?})", i, name, op, cmds));
+                }
+                content.apply(op);
+            }
+        }
+        let expect_s = content.values.get("s").and_then(|b| parse_i(b)).unwrap_or(0);
+        let mut expect_ms: Vec<(i64, i64)> = content.maps.get("ms").map(|m| m.iter().filter_map(|(k, v)| Some((parse_i(k)?, parse_i(v)?))).collect()).unwrap_or_default();
+        expect_ms.sort();
+        match rt.block_on(second_life(content)) {
+            Ok((restored, values, maps)) => {
+                *kinds.entry("restarts".into()).or_default() += 1;
+                let lanes_default = restored.v == 0 && restored.t == 0 && restored.m.is_empty() && restored.tm.is_empty();
+                let sync_default = ["v", "t"].iter().all(|l| values.get(*l).map(|s| s.trim() == "0").unwrap_or(false)) && ["m", "tm"].iter().all(|l| maps.get(*l).map(|es| es.is_empty()).unwrap_or(true));
+                if !lanes_default || !sync_default {
+                    failures.push(format!("transient-by-configuration case {}: after the restart the transient lanes are not at their defaults: on_start saw {:?}, a sync reported {:?} {:?} (commands {:?})", i, restored, values, maps, cmds));
+                }
+                if restored.s != expect_s || restored.ms != expect_ms {
+                    failures.push(format!("transient-by-configuration case {}: the stores came back as s={} ms={:?}, handed over were s={} ms={:?}", i, restored.s, restored.ms, expect_s, expect_ms));
+                }
+                if expect_s != 0 || !expect_ms.is_empty() {
+                    nontrivial += 1;
+                }
+            }
+            Err(e) => failures.push(format!("transient-by-configuration case {}: {} (commands {:?})", i, e, cmds)),
+        }
+    }
+    LANES_TRANSIENT.store(false, Ordering::SeqCst);
+
     w.finish(&args.out, "cases").unwrap();
     failures.sort();
     failures.dedup();
     let meta = J::obj(vec![
         ("evaluations", J::I(w.len() as i128)),
         ("distinct_nontrivial", J::I(nontrivial as i128)),
-        ("rule", J::s("1-10 commands (set on a persistent and a transient value lane; update / remove / clear on a persistent map lane, update on a transient one; the lifecycle copies the persistent lanes into a value store and a map store) sent by a linked remote to a real agent (derived lane model, AgentModel) running in the real agent runtime (run_agent_with_store) over a recording NodePersistence; a second remote in a third of the cases; the merged log of store operations and frames read by the remotes is checked (every published state was handed to the store first; the store ends up with the state the commands imply); then the agent is stopped (cleanly in a third of the cases, killed otherwise) and, for the end of the log and 3 (quick) / 6 (thorough) random crash points, restarted on the store as it was at that point: what on_start sees in every lane and store and what a sync reports must be the state handed to the store up to there, transient items at their defaults")),
+        ("rule", J::s("1-10 commands (set on a persistent and a transient value lane; update / remove / clear on a persistent map lane, update on a transient one; the lifecycle copies the persistent lanes into a value store and a map store) sent by a linked remote to a real agent (derived lane model, AgentModel) running in the real agent runtime (run_agent_with_store) over a recording NodePersistence; a second remote in a third of the cases; the merged log of store operations and frames read by the remotes is checked (every published state was handed to the store first; the store ends up with the state the commands imply); then the agent is stopped (cleanly in a third of the cases, killed otherwise) and, for the end of the log and 3 (quick) / 6 (thorough) random crash points, restarted on the store as it was at that point: what on_start sees in every lane and store and what a sync reports must be the state handed to the store up to there, transient items at their defaults; a further family (real code only) runs the agent with default_lane_config.transient = true, which makes every lane transient: no lane state may reach the store, store ids are asked for the stores only, after the restart every lane is at its default and the stores are as handed over")),
         ("structures", J::counts(&kinds)),
         ("samples", J::A(samples)),
         ("direct_failures", J::A(failures.iter().take(40).map(|f| J::s(f.chars().take(600).collect::<String>())).collect())),
